@@ -1,14 +1,20 @@
 ------------------------------ MODULE Controls ------------------------------
 (* C14 — emergency controls fail closed.                                                              *)
 (* Controls of one app:  breaker (KillSwitchParams.BreakerEnable), shutdown status                    *)
-(*   esm \in {"off", "cool" (executed, cool-off running), "after" (executed, cool-off over)},         *)
+(*   esm \in {"off",                                                                                  *)
+(*           "fresh"   executed in this very block: the shutdown hook has not run yet, no price snapshot, *)
+(*           "blocked" executed, blocks have passed, but the price snapshot cannot complete because the  *)
+(*                     feed of some oracle-priced asset is inactive,                                     *)
+(*           "cool"    executed, snapshot taken, cool-off running,                                       *)
+(*           "after"   executed, snapshot taken, cool-off over},                                         *)
 (*   off = set of price roles whose oracle price is inactive.                                         *)
 (* Required*  : what the property statement demands of a handler under a control setting.             *)
 (* Impl*      : the guard sequence as coded (conformance: recorded outcome = ImplOk on a fixture on   *)
 (*              which the same message succeeds with all controls off).                               *)
 EXTENDS Catalogue
 
-EsmStates == {"off", "cool", "after"}
+EsmStates == {"off", "fresh", "blocked", "cool", "after"}
+NoSnapshot == {"fresh", "blocked"}
 Ctl(b, e, o) == [breaker |-> b, esm |-> e, off |-> o]
 CtlOff == Ctl(FALSE, "off", {})
 Settings == {Ctl(b, e, o) : b \in BOOLEAN, e \in EsmStates, o \in SUBSET IO}
@@ -43,7 +49,14 @@ ImplBreaker(r, c) == c.breaker /\ r.ib
 ImplEsm(r, c)     == \/ r.ie = "all" /\ c.esm # "off"
                      \/ r.ie = "after" /\ c.esm = "after"
 ImplPrice(r, prod, c) == Ip(r, prod) \cap c.off # {} /\ ~(r.snap /\ c.esm # "off")
-ImplOk(r, prod, c) == ~(ImplBreaker(r, c) \/ ImplEsm(r, c) \/ ImplPrice(r, prod, c))
+(* named deviation: a handler that values with the shutdown snapshot fails (nil decimal, recovered panic) while shutdown *)
+(* is executed but the snapshot does not exist yet                                                                     *)
+ImplNoSnapshot(r, c) == r.snap /\ c.esm \in NoSnapshot
+ImplOk(r, prod, c) == ~(ImplBreaker(r, c) \/ ImplEsm(r, c) \/ ImplPrice(r, prod, c) \/ ImplNoSnapshot(r, c))
+
+(* not predicted: a market bid with NO debt price record at all computes with a zero price; whether it then fails depends on *)
+(* the auction's dust arithmetic, not on a guard                                                                           *)
+ImplUnpredicted(r, c, pm) == r.pk = "bid" /\ pm = "missing" /\ "out" \in c.off
 
 (* the step of the abstract state: a rejected message leaves the abstract app state unchanged *)
 Step(s, r, prod, c) == IF ImplOk(r, prod, c) THEN [ok |-> TRUE, st |-> [s EXCEPT !.ver = s.ver + 1]]
